@@ -594,7 +594,7 @@ func (p *c03) Shrink(scAny any) []any {
 
 func (p *c03) Info() PropInfo {
 	return PropInfo{
-		Rule: "seeded search, swarm style: batches of 1..4 generated messages (0..3 alternatives, embeds, attachments; QP/base64/8bit; all file sources; one in six S/MIME-signed) via Send (sometimes two calls) or DialAndSend; per run a random subset of fault kinds is enabled: producer failure {before first byte, mid, after last byte} in up to two producers; one transport fault {reset, failing write, peer stops reading} at a byte offset of a class {before DATA, first content byte, top headers, part header, body, before closing boundary, inside CRLF.CRLF, after it} located by a fault-free probe run; up to three scripted replies {451, 550, disconnect, 421-then-close, 250} at MAIL/RCPT/DATA/end-of-data/RSET/NOOP; every 16th run is fault-free. Non-trivial = at least one fault fired; distinct = distinct (op, batch size, reply script, transport fault kind and class, failing producers and positions, number of commits)",
+		Rule: "seeded search, swarm style: batches of 1..4 generated messages (0..3 alternatives, embeds, attachments; QP/base64/8bit; all file sources; one in six S/MIME-signed) via Send (sometimes two calls) or DialAndSend; per run a random subset of fault kinds is enabled: producer failure {before first byte, mid, after last byte} in up to two producers; one transport fault {reset, failing write, peer stops reading} at a byte offset of a class {before DATA, first content byte, top headers, part header, body, before closing boundary, inside CRLF.CRLF, after it} located by a fault-free probe run; up to three scripted replies {451, 550, disconnect, 421-then-close, 250} at MAIL/RCPT/DATA/end-of-data/RSET/NOOP; every 16th run is fault-free (half of those against a slow but healthy server whose every reply takes a twelfth of the timeout) and must succeed. Non-trivial = at least one fault fired; distinct = distinct (op, batch size, reply script, transport fault kind and class, failing producers and positions, number of commits)",
 		Assumptions: []string{"'the complete rendering of one Msg' is the rendering the harness takes itself with healthy producers after (and in half of the runs also before) the call; a CRLF is appended when it does not end in one, as the DATA transport does",
 			"IsDelivered()==false is accepted when the server's 2yz reply did not reach the client completely",
 			"workload restricted to CRLF line breaks in 8bit content and to shapes whose rendering is repeatable (repeatability is C11's subject)"},
